@@ -74,40 +74,72 @@ class _LazyImplies(ast.NodeTransformer):
         return node
 
 
-class _OldCollector(ast.NodeTransformer):
-    """scalar mode: old(e) is pre-evaluated before the call (olds list).
-    object mode (obj_names given): old(e) becomes (lambda self=__snap_self, ...: e)() so that it
-    reads the pre-state snapshots while variables bound by enclosing forall-lambdas stay visible."""
+_REL = ("list_same", "list_minus", "list_plus", "list_insert", "order_kept")
 
-    def __init__(self, obj_names=None):
-        self.olds = []
-        self.obj_names = obj_names
+
+class _OldRewriter(ast.NodeTransformer):
+    """old(e) reads the PRE-STATE heap: inside old(...) every attribute load `x.a` becomes
+    __oget(x, 'a'), which looks `a` up in the snapshot taken of x before the call (containers
+    copied), while object identities stay those of the real objects.
+    List relations name a list by an expression whose owner is evaluated in the pre-state:
+        list_minus(OWNER.attr, x)  ->  __list_minus(getattr(old(OWNER), 'attr'), old(OWNER.attr), x)"""
+
+    def __init__(self):
+        self.in_old = 0
 
     def visit_Call(self, node):
         if isinstance(node.func, ast.Name) and node.func.id == "old" and len(node.args) == 1:
-            if self.obj_names is not None:
-                inner = self.generic_visit(node.args[0]) if False else node.args[0]
-                args = ast.arguments(posonlyargs=[], args=[ast.arg(arg=n) for n in self.obj_names], kwonlyargs=[], kw_defaults=[],
-                                     defaults=[ast.Name(id="__snap_%s" % n, ctx=ast.Load()) for n in self.obj_names])
-                return ast.Call(func=ast.Lambda(args=args, body=inner), args=[], keywords=[])
-            self.olds.append(node.args[0])
-            return ast.Name(id="__old%d" % (len(self.olds) - 1), ctx=ast.Load())
+            self.in_old += 1
+            inner = self.visit(node.args[0])
+            self.in_old -= 1
+            return inner
+        if isinstance(node.func, ast.Name) and node.func.id in _REL and not self.in_old:
+            L = node.args[0]
+            cur, oldv = self._cur_and_old(L)
+            rest = [self.visit(a) for a in node.args[1:]]
+            return ast.Call(func=ast.Name(id="__" + node.func.id, ctx=ast.Load()), args=[cur, oldv] + rest, keywords=[])
+        if isinstance(node.func, ast.Name) and node.func.id in ("lists_frame",) and not self.in_old:
+            owners = []
+            for a in node.args[1:]:
+                if isinstance(a, ast.Attribute):
+                    self.in_old += 1
+                    owners.append(self.visit(a.value))
+                    self.in_old -= 1
+            attr = node.args[1].attr if len(node.args) > 1 and isinstance(node.args[1], ast.Attribute) else "_child_nodes"
+            return ast.Call(func=ast.Name(id="__lists_frame", ctx=ast.Load()),
+                            args=[node.args[0], ast.Constant(value=attr), ast.List(elts=owners, ctx=ast.Load())], keywords=[])
+        if isinstance(node.func, ast.Name) and node.func.id == "pos_frame":
+            return ast.Constant(value=True)
         self.generic_visit(node)
+        return node
+
+    def _cur_and_old(self, L):
+        if not isinstance(L, ast.Attribute):
+            raise ValueError("list relation on a non-field list")
+        self.in_old += 1
+        owner_old = self.visit(L.value)
+        self.in_old -= 1
+        import copy as _c
+        cur = ast.Call(func=ast.Name(id="__cget", ctx=ast.Load()), args=[owner_old, ast.Constant(value=L.attr)], keywords=[])
+        self.in_old += 1
+        owner_old2 = self.visit(_c.deepcopy(L.value))
+        self.in_old -= 1
+        oldv = ast.Call(func=ast.Name(id="__oget", ctx=ast.Load()), args=[owner_old2, ast.Constant(value=L.attr)], keywords=[])
+        return cur, oldv
+
+    def visit_Attribute(self, node):
+        self.generic_visit(node)
+        if self.in_old and isinstance(node.ctx, ast.Load):
+            return ast.Call(func=ast.Name(id="__oget", ctx=ast.Load()), args=[node.value, ast.Constant(value=node.attr)], keywords=[])
         return node
 
 
 def compile_spec(text, obj_names=None):
     tree = ast.parse(text.strip(), mode="eval")
-    oc = _OldCollector(obj_names)
-    tree = oc.visit(tree)
+    tree = _OldRewriter().visit(tree)
     tree = _LazyImplies().visit(tree)
     ast.fix_missing_locations(tree)
-    olds = []
-    for o in oc.olds:
-        e = ast.Expression(body=_LazyImplies().visit(o))
-        ast.fix_missing_locations(e)
-        olds.append(compile(e, "<old>", "eval"))
-    return compile(tree, "<spec>", "eval"), olds
+    return compile(tree, "<spec>", "eval"), []
 
 
 def real_function(target):
@@ -119,23 +151,101 @@ def real_function(target):
     return obj
 
 
-def _snapshot(o):
-    """pre-state snapshot of an object argument: shallow copy with its containers copied"""
-    import copy
-    try:
-        sn = copy.copy(o) if not hasattr(o, "__deepcopy__") else object.__new__(type(o))
-    except Exception:
-        sn = object.__new__(type(o))
-    d = getattr(o, "__dict__", None)
-    if d is not None:
-        for k, v in d.items():
-            if isinstance(v, (dict, list, set)):
-                v = type(v)(v) if type(v) in (dict, list, set) else copy.copy(v)
-            try:
-                object.__setattr__(sn, k, v)
-            except Exception:
-                pass
-    return sn
+class _Snap(object):
+    pass
+
+
+def _is_model_obj(v):
+    return getattr(v, "__dict__", None) is not None and type(v).__module__.startswith("dendropy")
+
+
+def take_snapshots(roots, cap=5000):
+    """pre-state snapshots (attribute dict with containers copied) of every dendropy object reachable
+    from the roots through attributes and containers"""
+    snaps = {}
+    todo = list(roots)
+    while todo and len(snaps) < cap:
+        o = todo.pop()
+        if not _is_model_obj(o) or id(o) in snaps:
+            continue
+        sn = _Snap()
+        snaps[id(o)] = (o, sn)
+        for k, v in list(o.__dict__.items()):
+            if type(v) in (dict, list, set):
+                cv = type(v)(v)
+                it = list(v.keys()) + list(v.values()) if isinstance(v, dict) else list(v)
+                todo.extend(x for x in it if _is_model_obj(x))
+            else:
+                cv = v
+                if _is_model_obj(v):
+                    todo.append(v)
+            sn.__dict__[k] = cv
+    return snaps
+
+
+def _native_env(snaps, universe):
+    def oget(obj, attr):
+        if obj is None:
+            raise AttributeError("None.%s" % attr)
+        e = snaps.get(id(obj))
+        if e is not None and attr in e[1].__dict__:
+            return e[1].__dict__[attr]
+        return getattr(obj, attr)
+
+    def cget(obj, attr):
+        return getattr(obj, attr)
+
+    def ids(L):
+        return [id(x) for x in L]
+
+    def list_same(cur, old):
+        return ids(cur) == ids(old)
+
+    def list_minus(cur, old, x):
+        o = list(old)
+        k = [i for i, e in enumerate(o) if e is x]
+        if not k:
+            return False
+        del o[k[0]]
+        return ids(cur) == ids(o)
+
+    def list_plus(cur, old, x):
+        return ids(cur) == ids(list(old) + [x])
+
+    def list_insert(cur, old, i, x):
+        o = list(old)
+        o.insert(i, x)
+        return ids(cur) == ids(o)
+
+    def order_kept(cur, old, x):
+        c = [id(e) for e in cur if e is not x]
+        o = [id(e) for e in old if e is not x]
+        common = set(c) & set(o)
+        return [e for e in c if e in common] == [e for e in o if e in common]
+
+    def lists_frame(cls, attr, owners):
+        for n in universe.get(cls, []):
+            if any(n is o for o in owners):
+                continue
+            e = snaps.get(id(n))
+            if e is None:
+                continue
+            if ids(getattr(n, attr)) != ids(e[1].__dict__.get(attr, [])):
+                return False
+        return True
+
+    return {
+        "__oget": oget, "__cget": cget, "__list_same": list_same, "__list_minus": list_minus, "__list_plus": list_plus,
+        "__list_insert": list_insert, "__order_kept": order_kept, "__lists_frame": lists_frame,
+        "isin": lambda x, L: any(e is x for e in L),
+        "at": lambda L, k: (L[k] if 0 <= k < len(L) else _NOTHING),
+        "length": lambda L: len(L),
+        "listinv": lambda L: all(e is not None for e in L) and len(set(id(e) for e in L)) == len(L),
+        "same_list": lambda a, b: ids(a) == ids(b),
+    }
+
+
+_NOTHING = _Snap()
 
 
 def _g(env):
@@ -157,16 +267,12 @@ def native_check(c, kwargs, extra_env=None, universe=None):
     uni = universe or {}
     env["forall_ref"] = lambda cls, f: all(f(x) for x in uni.get(cls, []))
     env["forall_int"] = _forall_int
-    # only state-holding arguments are snapshotted (the receiver, objects named in `modifies`, and
-    # arguments of the receiver's class); other objects (dictionary keys such as taxa) keep their identity
-    holders = set(loc.split(".")[0] for loc in c.modifies if "." in loc and not loc.endswith("[*]"))
-    holders.add("self")
-    selfv = kwargs.get("self")
-    obj_names = [k for k, v in kwargs.items() if getattr(v, "__dict__", None) is not None and type(v).__module__.startswith("dendropy")
-                 and (k in holders or (selfv is not None and type(v) is type(selfv)))]
-    for n in obj_names:
-        env["__snap_%s" % n] = _snapshot(kwargs[n])
-    on = obj_names if obj_names else None
+    roots = [v for v in kwargs.values() if _is_model_obj(v)]
+    for lst in uni.values():
+        roots.extend(lst)
+    snaps = take_snapshots(roots)
+    env.update(_native_env(snaps, uni))
+    on = None
     try:
         pre_code, _ = compile_spec(c.requires, on)
         if not eval(pre_code, _g(env)):
@@ -455,9 +561,14 @@ def replay_by_search(states):
             label = ob.name.split(".ensures[", 1)[1].split("]", 1)[0]
         first_any = None
         n = 0
+        n_uneval = 0
+        why_uneval = None
         for kw, uni, desc in states(c):
             n += 1
             failed, outcome = native_check(c, kw, universe=uni)
+            if failed is None and "not evaluable" in str(outcome):
+                n_uneval += 1
+                why_uneval = outcome
             if not failed:
                 continue
             hit = (label is None) or any(f == label or f.startswith(label + " ") for f in failed)
@@ -474,6 +585,8 @@ def replay_by_search(states):
                                     found_by="native small-scope search over %d reachable states" % n),
                      detail="%s on %s: %s; failed clauses: %s" % (c.name, desc, outcome, failed), kind="T1")
             return True
+        if n and n_uneval == n:
+            ctx.checker_failure("native contract monitor could not evaluate the requires of %s on any state: %s" % (c.name, why_uneval))
         st = ob.status
         ctx.obligation(ob.name, st, "z3", ob.time_s, c.target, detail=(ob.detail or "") + " no native witness among %d states" % n)
         if st == "refuted":
@@ -484,3 +597,31 @@ def replay_by_search(states):
         return True
 
     return hook
+
+
+def validate_contracts_natively(ctx, contracts, states, scope, rule, limit=None):
+    """Bounded stand-in for the same contracts: every contract is installed as a run-time monitor
+    (natively evaluated requires/ensures/raises) around the REAL function over a set of reachable
+    states.  Counted as bounded evaluations, never as proof."""
+    ctx.scope(scope, rule=rule, exhaustive=limit is None)
+    for c in contracts:
+        if c.assumed:
+            continue
+        n = 0
+        uneval = 0
+        for kw, uni, desc in states(c):
+            n += 1
+            if limit is not None and n > limit:
+                break
+            failed, outcome = native_check(c, kw, universe=uni)
+            if failed is None:
+                if "not evaluable" in str(outcome):
+                    uneval += 1
+                continue
+            ctx.case(scope, desc, nontrivial=True, sample=desc)
+            if failed:
+                ctx.fail("%s.monitor[%s]" % (c.name, failed[0][:60]), dict(key="%s|%s" % (c.name, desc), function=c.target, state=desc,
+                                                                             failed_clauses=failed, outcome=outcome),
+                         detail="%s: %s; failed clauses %s" % (desc, outcome, failed), kind="T1")
+        if n and uneval == n:
+            ctx.checker_failure("native monitor of %s could not evaluate its requires on any state" % c.name)
